@@ -177,6 +177,17 @@ def run_case(c, stats):
                 core.LOG.in_oracle -= 1
         finally:
             core.LOG.depth = LOGd
+    if c.get("edits"):
+        gfa.apply_edits(fa, c)
+        stats.cls("edited")
+        with core.oracle_mode():
+            ref2 = extract.fa(fa)
+        call(fa.is_empty)
+        call(fa.is_deterministic)
+        if len(ref2.states) <= 6:
+            call(fa.is_acyclic)
+        with core.oracle_mode():
+            judge_words(fa, ref2, 2)
     return bool(ref.trans) and not ref.is_empty()
 
 
